@@ -13,7 +13,7 @@ def parse_rust_line(line, en):
         return results, [0]
     reg = int(re.search(r'register: (\d+)', fin).group(1))
     nb = int(re.search(r'num_bits: (\d+)', fin).group(1))
-    st = re.search(r'scancode_set: \w+ \{ state: (\w+) \}', fin).group(1)
+    st = re.search(r'scancode_set: \w+ \{ state: (\w+)', fin).group(1)
     bits = 0
     for i, f in enumerate(FIELDS):
         if re.search(r'\b%s: true' % f, fin):
@@ -33,7 +33,10 @@ def run(tier, seed, cov, notes, ctx):
     rc, out, dt = ctx.sh([ctx.HARNESS, 'seq', txt], timeout=1200)
     if rc != 0:
         return None, "harness seq failed: " + out[-500:]
-    rust = [parse_rust_line(l, en) for l in out.strip().split('\n')]
+    try:
+        rust = [parse_rust_line(l, en) for l in out.strip().split('\n')]
+    except (AttributeError, ValueError, IndexError) as e:
+        return None, "cannot read the crate's final state rendering: %r" % e
     # Coq side, sharded
     cdir = os.path.join(ctx.COQ, 'SeqCases')
     os.makedirs(cdir, exist_ok=True)
